@@ -257,11 +257,14 @@ func (g *genState) restrict(t *tableSpec) {
 	// F8: (automatic layout) at least one column carries no width declaration at all -- when the
 	// table width is a percentage (F8: the table is shrunk below it) or a column carries a
 	// percentage (F8b: that column is reduced below its minimum).  A table with a px or auto width
-	// whose columns all carry px widths is in the domain (constrained.go).
+	// whose columns all carry px widths is in the domain (constrained.go), and so is one whose
+	// columns are percentage and px columns when the cells of the percentage columns fit in the
+	// share those columns keep next to the declared px widths (mixed.go, mixedFits): F8b cannot
+	// be met there.
 	if !fixed && !o.allowAllConstrainedSpecified {
 		ref := buildRef(t)
 		refs := widthRefs(t, ref)
-		free := t.WKind != "pct" && !anyPercentColumn(refs)
+		free := t.WKind != "pct" && (!anyPercentColumn(refs) || mixedFits(t, ref))
 		for x := 0; x < ref.NCols; x++ {
 			if len(refs[x]) == 0 {
 				free = true
